@@ -312,6 +312,11 @@ func depDims() []Dim {
 		// form of the digests in the v1 buf.lock files (the format of the buf CLI that wrote them)
 		{"d.digest", 3},  // 0 shake256 (b4); 1 none: commit-only entries (before ~v1.10); 2 retired digest types b1- / b3- with the branch and create_time keys of that era
 		{"d.lockver", 3}, // version key of the buf.lock files: 0 v1; 1 v1beta1; 2 no version key
+		// round 4: how the migrator is invoked (migCallArgs in migrate.go): 0 MigrateAll; with a buf.work.yaml
+		// 1 the workspace alone, 2 + all its directories, 3 + its last directory, 4 + its directories reversed and
+		// then in order, 5 the workspace twice + the first directory in unnormalised spelling; without one the
+		// module directories 2 in order, 3 reversed, 4 reversed then in order, 5 unnormalised spellings
+		{"d.call", 6},
 	}
 }
 
@@ -671,6 +676,12 @@ func buildDepWorld(dims []Dim, ix dimIndex, v []int, deps *migDeps) (MigCase, bo
 		c.Names = nil
 	}
 	c.ModuleDirs = dirs
+	if call := ix.val(v, "d.call"); call != 0 {
+		var ok bool
+		if c.Call, ok = migCallArgs(call, layout == 0, dirs); !ok {
+			return c, false
+		}
+	}
 	keys := make([]string, 0, len(c.Vector))
 	for k, val := range c.Vector {
 		keys = append(keys, fmt.Sprintf("%s=%d", k, val))
@@ -849,6 +860,33 @@ func depWorldVectors(dims []Dim, ix dimIndex, quick bool) [][]int {
 			}
 		}
 	}
+	// ---- round 4: the invocation form. The order and the number of visits of the module directories is what
+	// the merge of deps and locks iterates over, so it is crossed with disagreeing locks (d.pins) and, where
+	// the directories are migrated alone, with two different labels.
+	nCall := dims[ix["d.call"]].N
+	for layout := 0; layout < 2; layout++ {
+		for call := 1; call < nCall; call++ {
+			if quick {
+				add(vec(1, 1, 0, layout, map[string]int{"d.call": call}))
+				add(vec(1, 1, 0, layout, map[string]int{"d.call": call, "d.pins": 1}))
+				if call == 3 || call == 4 {
+					add(vec(1, 1, 1, layout, map[string]int{"d.call": call, "d.pins": 4}))
+				}
+			} else {
+				for p := 0; p < nPins; p++ {
+					add(vec(1, 1, 0, layout, map[string]int{"d.call": call, "d.pins": p}))
+					add(vec(1, 1, 1, layout, map[string]int{"d.call": call, "d.pins": p}))
+				}
+				for e := 1; e < dims[ix["d.extra"]].N; e++ {
+					add(vec(1, 1, 0, layout, map[string]int{"d.call": call, "d.extra": e}))
+				}
+			}
+			if layout == 1 {
+				add(vec(2, 3, 0, 1, map[string]int{"d.call": call}))
+				add(vec(1, 2, 0, 1, map[string]int{"d.call": call}))
+			}
+		}
+	}
 	// the module directories are separate workspaces (mixed spellings): a label decides while the locks of
 	// the unpinned declarers disagree; two labels with legacy locks
 	for c := 2; c < 4; c++ {
@@ -906,7 +944,9 @@ func runMigrationDeps(r *evid.Run) {
 		"deps_oracle/declared_by_two_or_more_modules/declared-unpinned", "deps_oracle/declared_by_two_or_more_modules/declared-pinned",
 		"deps_oracle/declared_by_two_or_more_modules/declared-pinned-and-unpinned", "deps_oracle/declared_by_three_modules",
 		"deps_oracle/two_distinct_refs_declared", "deps_oracle/pin_checked", "deps_oracle/indirect_pin_checked",
-		"lint_nonempty_before", "breaking_nonempty_before", "descriptors_compared"} {
+		"lint_nonempty_before", "breaking_nonempty_before", "descriptors_compared",
+		"module_list_checked", "call/explicit", "call/workspace_alone", "call/module_directories_alone", "call/module_directories_alone_reordered",
+		"call/directory_reached_twice", "call/directory_reached_three_times", "call/module_with_buf_lock_reached_twice"} {
 		if snap[clause] == 0 {
 			r.Incomplete("migration (dependency worlds) clause never exercised: " + clause)
 		}
